@@ -3,8 +3,11 @@
 from __future__ import annotations
 
 import ast
+import io
+import keyword
 import operator as op
 import re
+import tokenize
 from typing import Any, Dict, List, Optional, Set, Tuple, Union
 
 from .ast import (
@@ -1308,8 +1311,53 @@ def _strip_inline_comment(text: str) -> str:
             in_double = not in_double
             continue
         if char == "#" and not in_single and not in_double:
-            return text[:index].rstrip()
-    return text
+            return _close_up_call_spacing(text[:index].rstrip())
+    return _close_up_call_spacing(text)
+
+
+def _close_up_call_spacing(text: str) -> str:
+    """Drop the optional blanks of ``name (args)`` / ``obj . method`` outside string literals.
+
+    The statement patterns below are anchored on ``name(`` and ``obj.method``; Python
+    also accepts blanks there, and a line written that way must not be skipped.
+    """
+
+    if " (" not in text and "\t(" not in text and " ." not in text and ". " not in text:
+        return text
+    body = text.lstrip()
+    prefix = text[: len(text) - len(body)]
+    try:
+        tokens = list(tokenize.generate_tokens(io.StringIO(body).readline))
+    except (tokenize.TokenError, IndentationError, SyntaxError):
+        return text
+    cuts: List[Tuple[int, int]] = []
+    prev = None
+    fstring_depth = 0
+    fstring_start = getattr(tokenize, "FSTRING_START", None)
+    fstring_end = getattr(tokenize, "FSTRING_END", None)
+    for tok in tokens:
+        if tok.type in (tokenize.NEWLINE, tokenize.NL, tokenize.ENDMARKER, tokenize.INDENT, tokenize.DEDENT):
+            continue
+        if tok.start[0] != 1 or tok.end[0] != 1:
+            return text
+        if fstring_start is not None and tok.type == fstring_start:
+            fstring_depth += 1
+        if prev is not None and fstring_depth == 0 and tok.start[1] > prev.end[1]:
+            gap = body[prev.end[1]: tok.start[1]]
+            prev_callable = (
+                prev.type == tokenize.NAME and not keyword.iskeyword(prev.string)
+            ) or prev.string in (")", "]")
+            if gap.strip() == "" and (
+                (tok.string in ("(", ".") and tok.type == tokenize.OP and prev_callable)
+                or (prev.string == "." and prev.type == tokenize.OP and tok.type == tokenize.NAME)
+            ):
+                cuts.append((prev.end[1], tok.start[1]))
+        if fstring_end is not None and tok.type == fstring_end:
+            fstring_depth -= 1
+        prev = tok
+    for start, end in reversed(cuts):
+        body = body[:start] + body[end:]
+    return prefix + body
 
 
 def _annotation_to_type_label(annotation: Optional[ast.AST]) -> str:
